@@ -66,6 +66,10 @@ Requested(Q)  == {Q.lv[i].z : i \in 1..Len(Q.lv)}
 Ok == R.out = "ok"
 Valid == ValidPolygon(R.poly)
 
+(* the routed boundaries themselves (used to key known finding F5: they are the arguments of the spike removal) *)
+EmitChains == PrintT(<<"VEC", ToJson([l |-> l, lv |-> [i \in 1..Len(R.lv) |->
+                        [z |-> R.lv[i].z, k |-> R.lv[i].k, rings |-> Chains(R.poly, Span(R.lv[i].k))]]])>>)
+
 (* ---------------- harness sanity ---------------- *)
 ProjectionExact == R.exact
 
